@@ -67,6 +67,8 @@ pub fn decode(t: &mut Tape) -> NetCase {
     let dirs = ["script-src 'none'", "script-src 'self'", "img-src *", "worker-src 'none'", "default-src 'self'; report-uri /r", "frame-src 'none'"];
     let mut rules = vec![];
     let nrules = if t.chance(1, 30) { 20 + t.pick(120) } else { 1 + t.pick(10) };
+    // long-domain mode: csp rules restricted to initiator lists of one length over a small pool
+    let long_domains = if t.chance(1, 6) { Some((1 + t.pick(24), 8 + t.pick(40))) } else { None };
     for k in 0..nrules {
         let p = t.choose(&pats);
         let ex = t.chance(1, 3);
@@ -80,7 +82,11 @@ pub fn decode(t: &mut Tape) -> NetCase {
                 opts.push(format!("csp={}", t.choose(&dirs)));
             }
         }
-        if t.chance(1, 4) {
+        if let (Some((len, pool)), true) = (long_domains, t.chance(3, 4)) {
+            let neg = t.chance(1, 8);
+            let l: Vec<String> = (0..len).map(|_| format!("{}s{}.org", if neg { "~" } else { "" }, t.pick(pool))).collect();
+            opts.push(format!("domain={}", l.join("|")));
+        } else if t.chance(1, 4) {
             opts.push(t.choose(&["domain=site.org", "domain=~site.org", "3p", "1p", "important"]).to_string());
         }
         if t.chance(1, 5) {
@@ -102,6 +108,13 @@ pub fn decode(t: &mut Tape) -> NetCase {
         let u = format!("https://{}{}", t.choose(&["x.com", "sub.x.com", "y.org", "z.net"]), t.choose(&["/page", "/page.html", "/", "/other"]));
         reqs.push(ReqSpec { url: u, source: t.choose(&["https://site.org/", "https://x.com/", ""]).to_string(), rtype: t.choose(gen::REQ_TYPES).to_string() });
     }
+    if let Some((_, pool)) = long_domains {
+        for r in reqs.iter_mut() {
+            if t.chance(3, 4) {
+                r.source = format!("https://{}s{}.org/", t.choose(&["", "www.", "a.b."]), t.pick(pool));
+            }
+        }
+    }
     // bias towards document types
     for r in reqs.iter_mut() {
         if t.chance(1, 2) {
@@ -112,7 +125,7 @@ pub fn decode(t: &mut Tape) -> NetCase {
 }
 
 pub fn check(ctx: &mut Ctx) {
-    ctx.rule = "1-10 $csp= rules / @@..$csp= / blanket @@..$csp on 7 overlapping patterns with 6 directives (duplicates frequent), optional domain/party/important/tag options, plus ordinary rules; tag subset; 1-5 requests over all request-type strings (half forced to document types). Oracle: non-document types => None; a matching active blanket exception => None; otherwise set(enabled) minus set(disabled), None when empty; compared as the set of comma-separated parts, which must be duplicate-free; the same query on an engine built from the reversed list with optimisation on must give the same set. Non-trivial = >= 2 distinct directives enabled and >= 1 exception, or a blanket exception.".into();
+    ctx.rule = "1-10 $csp= rules / @@..$csp= / blanket @@..$csp on 7 overlapping patterns with 6 directives (duplicates frequent), optional domain/party/important/tag options (1 case in 6: domain= lists of one length 1-24 over a pool of 8-47 initiators, requests from that pool), plus ordinary rules; tag subset; 1-5 requests over all request-type strings (half forced to document types). Oracle: non-document types => None; a matching active blanket exception => None; otherwise set(enabled) minus set(disabled), None when empty; compared as the set of comma-separated parts, which must be duplicate-free; the same query on an engine built from the reversed list with optimisation on must give the same set. Non-trivial = >= 2 distinct directives enabled and >= 1 exception, or a blanket exception.".into();
     ctx.assumptions = vec!["which csp rules match is decided by NetworkFilter::matches; directives contain no comma (the option grammar cannot express one)".into()];
     let n = ctx.tier.pick(800_000, 6_000_000);
     drive(ctx, "csp", n, 300, &decode, &check_case);
